@@ -58,7 +58,10 @@ static void discoverOwned(const Cfg& c) {
 static bool skipClass(const Cfg& c, const Expect& e) {
   string cls = e.cls;
   // classes whose text form the statement does not call lossless
-  if (cls == "nonprintable" || cls.compare(0, 12, "partial-null") == 0 || cls == "unlisted" ||
+  // (a partly undefined clock time - hour or minute '-' - is a text like any other for the types that keep one byte per
+  //  part: what decodes must encode again)
+  bool partialTime = cls == "partial-null" && c.fs.t->kind == rc::K_TIME;
+  if (cls == "nonprintable" || (cls.compare(0, 12, "partial-null") == 0 && !partialTime) || cls == "unlisted" ||
       cls == "listed-replacement" || cls == "partial-replacement") return true;
   if (c.fs.t->kind == rc::K_WDAY && cls == "out-of-range") return true;
   return false;
